@@ -275,6 +275,46 @@ fn manual_base(rng: &mut Rng, cfg: &mut SimCfg, n: usize, tick_ms: u64) -> (Net,
     (net, Manual { pair: (a, b), mark_step })
 }
 
+/// "Up to the socket capacities": a small tcp_capacity that the held messages fill exactly — either
+/// `cap` connection requests for one listener, or `cap` data segments of one stream followed by its FIN —
+/// released together in one step.
+fn capacity_base(rng: &mut Rng, cfg: &mut SimCfg, n: usize, tick_ms: u64) -> Net {
+    let a = rng.usize(0, n - 1);
+    let mut b = rng.usize(0, n - 2);
+    if b >= a {
+        b += 1;
+    }
+    let cap = *rng.pick(&[1usize, 2, 2, 3, 4]);
+    cfg.tcp_capacity = cap;
+    cfg.udp_capacity = 64;
+    let lat = cfg.max_latency_us.div_ceil(cfg.tick_us) as u32;
+    let hold_step = 7 + 2 * lat;
+    let rel_step = hold_step + rng.range(3, 6) as u32;
+    let lo = (hold_step as u64 - 1) * tick_ms;
+    let hi = (rel_step as u64 - 1) * tick_ms - 1;
+    let mut conns = Vec::new();
+    let mut udp = Vec::new();
+    if rng.bool() {
+        // `cap` connects while the link is held: their SYNs reach the listener in one step
+        for _ in 0..cap {
+            let at = rng.range(lo, hi);
+            // (only the hello frame: a second frame would have to wait for a credit when the capacity is 1)
+            conns.push(Conn { from: a, to: b, at_ms: at, c2s: vec![], s2c: vec![], fin_c: if rng.bool() { Some(hi + 20 * tick_ms) } else { None }, fin_s: None, by_ip: rng.bool(), drop_c: None });
+        }
+    } else {
+        // one stream set up before the hold; while the link is held it writes `cap` frames and shuts down
+        let at = rng.range(lo, hi);
+        conns.push(Conn { from: a, to: b, at_ms: tick_ms, c2s: vec![(at, cap as u32)], s2c: vec![], fin_c: Some(rng.range(at, hi)), fin_s: None, by_ip: rng.bool(), drop_c: None });
+    }
+    // some datagrams in both directions on the held link and elsewhere
+    for _ in 0..rng.usize(0, 3) {
+        let (x, y) = if rng.bool() { (a, b) } else { (b, a) };
+        udp.push(UdpBurst { from: x, to: y, at_ms: rng.range(tick_ms, hi), count: rng.range(1, 3) as u32, by_ip: rng.chance(1, 3) });
+    }
+    let script = vec![(hold_step, Act::Hold(gen_sel(rng, a), gen_sel(rng, b))), (rel_step, Act::Release(gen_sel(rng, a), gen_sel(rng, b)))];
+    Net { cfg: cfg.clone(), hosts: n, udp, conns, hacts: vec![], script, steps: rel_step + 3 * (lat + 2) + 24, sample_links: true, probes: vec![] }
+}
+
 fn cycles_base(rng: &mut Rng, cfg: &mut SimCfg, n: usize, tick_ms: u64) -> Net {
     let run_ticks = rng.range(8, 22);
     let horizon = run_ticks * tick_ms;
@@ -445,11 +485,15 @@ impl Property for C08 {
         let (mut net, manual) = if idx % 5 == 0 {
             let (net, m) = manual_base(rng, &mut cfg, n, tick_ms);
             (net, Some(m))
+        } else if idx % 8 == 3 {
+            (capacity_base(rng, &mut cfg, n, tick_ms), None)
         } else {
             (cycles_base(rng, &mut cfg, n, tick_ms), None)
         };
         let mut crng = rng.fork();
-        fit_capacities(&mut crng, &mut net);
+        if idx % 5 == 0 || idx % 8 != 3 {
+            fit_capacities(&mut crng, &mut net);
+        }
         Scenario { net, manual, vseed }
     }
 
